@@ -13,6 +13,7 @@ import harness.stubs  # noqa: F401
 from harness.stubs import TokenCodec, Canned
 from harness import jclasses
 from harness.jcommon import same_json, snapshot, unchanged
+from harness.disp import make_dispatcher, close_servers
 import jsonrpclib.jsonclass as jsonclass
 import jsonrpclib.jsonrpc as jsonrpc
 import jsonrpclib.SimpleJSONRPCServer as srv
@@ -168,7 +169,7 @@ def h_off(shape, L):
             if not same_json(out, payload):
                 return 2
         elif entry == "server":
-            dispatcher = srv.SimpleJSONRPCDispatcher(config=config)
+            dispatcher = make_dispatcher(shape, config)
             seen = []
 
             def echo(*args, **kwargs):
@@ -207,6 +208,7 @@ def h_off(shape, L):
         return 11
     finally:
         trip.uninstall()
+        close_servers()
 
 
 def h_on(shape, L):
@@ -239,7 +241,7 @@ def h_on(shape, L):
             elif entry == "loads":
                 jsonrpc.loads(codec.text_of(payload), config)
             elif entry == "server":
-                dispatcher = srv.SimpleJSONRPCDispatcher(config=config)
+                dispatcher = make_dispatcher(shape, config)
 
                 def echo(*args, **kwargs):
                     seen.append((args, kwargs))
@@ -290,3 +292,4 @@ def h_on(shape, L):
         return PASS + 4
     finally:
         trip.uninstall()
+        close_servers()
